@@ -449,6 +449,11 @@ func c02ClassifyRead(text, got string, e error) string {
 
 // c02AsciiLen is the length of the plain ASCII encodation: digit pairs 1, extended characters 2, others 1 codeword.
 func c02AsciiLen(m []byte) int {
+	// macro 05 / 06 envelope: "[)>" RS "05"|"06" GS ... RS EOT is one codeword (236 / 237) plus the body
+	if len(m) >= 9 && string(m[:4]) == "[)>\x1e" && m[4] == '0' && (m[5] == '5' || m[5] == '6') && m[6] == 0x1d &&
+		m[len(m)-2] == 0x1e && m[len(m)-1] == 0x04 {
+		return 1 + c02AsciiLen(m[7:len(m)-2])
+	}
 	n := 0
 	for i := 0; i < len(m); {
 		switch {
@@ -461,6 +466,23 @@ func c02AsciiLen(m []byte) int {
 		}
 	}
 	return n
+}
+
+// c02AllDigitBody: the message, or the body of its macro 05/06 envelope, consists of digits only.
+func c02AllDigitBody(m []byte) bool {
+	if len(m) >= 9 && string(m[:4]) == "[)>\x1e" && m[4] == '0' && (m[5] == '5' || m[5] == '6') && m[6] == 0x1d &&
+		m[len(m)-2] == 0x1e && m[len(m)-1] == 0x04 {
+		m = m[7 : len(m)-2]
+	}
+	if len(m) == 0 {
+		return false
+	}
+	for _, b := range m {
+		if b < '0' || b > '9' {
+			return false
+		}
+	}
+	return true
 }
 
 // c02ErrClass gives refusals of encodable text a stable sub-key by the kind of failure.
@@ -612,9 +634,11 @@ func c02Eval(k c02Case, wd time.Duration) (o c02Outcome) {
 	need := nU
 	if nU < 0 {
 		need = nA
-		if cl := c02ErrClass(hlUMsg); cl == "-no-symbol" || cl == "-base256-length" {
+		if cl := c02ErrClass(hlUMsg); (cl == "-no-symbol" || cl == "-base256-length") && !c02AllDigitBody(k.Msg) {
 			need = 1 << 30
 		}
+		// (a body of digits only is encoded by the ASCII encoder's digit-pair rule before any look-ahead runs, so
+		// for such texts the plain ASCII encodation IS the encoder's own encoding and remains the witness)
 	}
 	fits := need <= k.Hints.maxCap()
 	if fits {
